@@ -286,6 +286,7 @@ func cmdCheck(args []string) int {
 	var samples []map[string]interface{}
 	var failedNames []string
 	replayDir := filepath.Join(*verif, "replays", cfg.ID)
+	os.RemoveAll(replayDir)
 	for _, r := range results {
 		queries += r.Queries
 		solverTime += r.Time
